@@ -314,3 +314,19 @@ func arrayFilledFromWrongCount(parts []string) ([4]byte, bool) {
 	}
 	return out, true
 }
+
+// LINT-DEADVALUE: the statement that used the second encoding is gone.
+func encodedAndDropped(v int, w io.Writer) error {
+	out, err := asn1.Marshal(v)
+	if err != nil {
+		return err
+	}
+	w.Write(out)
+	out, err = asn1.Marshal(v + 1)
+	return err
+}
+
+// LINT-CONSTSLICE
+func sliceBeyondUnknownLength(h []byte) []byte {
+	return h[:8]
+}
